@@ -48,7 +48,7 @@ func init() {
 		Title:      "Undefined or doubly defined names are reported as errors",
 		Decided:    "no unchecked lookup in an index of definitions (LK-1); every lookup of a decoded identifier returns an error on a miss and the found object on a hit (LK-2); every insertion into an index is guarded by a duplicate test that always errors (DUP); errors of translator functions are propagated, never panicked or dropped (ERR); an error never comes with a module (NILMOD).",
 		NotDecided: "reference sites that never reach a lookup at all (e.g. names only used by constructs the IR does not model); blockaddress placeholders (covered under C04 by TODO).",
-		Rules:      []RuleUse{{Rule: "LK-1"}, {Rule: "LK-2"}, {Rule: "DUP"}, {Rule: "ERR"}, {Rule: "NILMOD"}},
+		Rules:      []RuleUse{{Rule: "LK-1"}, {Rule: "LK-2"}, {Rule: "DUP"}, {Rule: "ERR"}, {Rule: "NILMOD"}, {Rule: "TODO"}, {Rule: "PHASE"}},
 	})
 	addProperty(&Property{
 		ID:         "C12",
@@ -72,7 +72,7 @@ func init() {
 		Decided:    "observers (printing, Type, Ident, Operands, Succs, Sig, ID, IsUnnamed, MDAttachments) write no shared memory other than ID fields, result-type caches and successor caches — no observer sorts, appends to or normalises an IR field (OBS-1); result-type caches are already filled when an observer runs (RACE-3); no numbering routine fails depending on IDs an earlier observation assigned (OBS-4); renaming clears the ID (OBS-5).",
 		NotDecided: "equality of the final texts for every history as such; staleness of the successor cache after a target is replaced through an operand slot (reported under C15 when OPS-4 is armed).",
 		Technique:  "static analysis: SSA write-effect closure from the observer entry points + go/ast rules on the numbering routines (OBS-1, OBS-4, OBS-5, RACE-3)",
-		Rules:      []RuleUse{{Rule: "OBS-1"}, {Rule: "OBS-4"}, {Rule: "OBS-5"}, {Rule: "RACE-3"}},
+		Rules:      []RuleUse{{Rule: "OBS-1"}, {Rule: "OBS-4"}, {Rule: "OBS-5"}, {Rule: "RACE-3"}, {Rule: "MD-ASSIGN"}},
 	})
 	addProperty(&Property{
 		ID:         "C20",
@@ -97,7 +97,7 @@ func init() {
 		Decided:    "every definition object the parser allocates flows into a registering index or container, and nothing but the blockaddress placeholder is allocated outside that discipline (ALLOC, SSA value flow); the placeholder is queued, the queue is drained before the module is returned and the fixer installs a block of the function itself or fails (TODO); uses obtain the looked-up object itself, or an error (LK-2, LK-1); locals resolve only in their own function's table (SCOPE); every index is completely filled before any step consults it (PHASE); parent links are set at creation by the parser (PARENT) and by the builder API (CTOR-3).",
 		NotDecided: "identity along paths the flow rules do not model (objects copied by value); the alias-typedef defect F2 (a second type object named like its target), found by reading.",
 		Technique:  "static analysis: SSA value-flow of allocation sites to registering sinks over the VTA call graph, call-graph phase ordering, go/ast idiom rules (ALLOC, TODO, SCOPE, PHASE, PARENT, LK-1, LK-2)",
-		Rules: []RuleUse{{Rule: "ALLOC"}, {Rule: "TODO"}, {Rule: "SCOPE"}, {Rule: "PHASE"}, {Rule: "PARENT"}, {Rule: "LK-1"}, {Rule: "LK-2"},
+		Rules: []RuleUse{{Rule: "ALLOC"}, {Rule: "IDX-ONCE"}, {Rule: "TODO"}, {Rule: "SCOPE"}, {Rule: "PHASE"}, {Rule: "PARENT"}, {Rule: "LK-1"}, {Rule: "LK-2"},
 			{Rule: "CTOR-3"}},
 	})
 	addProperty(&Property{
@@ -119,7 +119,7 @@ func init() {
 		Title:      "Unnamed values are numbered exactly as LLVM numbers them",
 		Decided:    "the printer's numbering traversal and the parser's indexing traversal have the same nest, filters and asserted interface (NUM-SHAPE); a type is numbered exactly when it prints a `<ident> = ` prefix, conditional on non-void exactly for call-like types and with the numbering's own skip predicate (NUM-PREFIX); numbering stores only the position counter, starting at 0 and advancing once per unnamed entity, so renumbering an already numbered function changes nothing (NUM-REDERIVE, RACE-2 guard); one numbering authority per ID space (NUM-AUTH); call-like result types are known before numbering (RACE-3).",
 		NotDecided: "the arithmetic of the counters as such; agreement with LLVM's own numbering beyond the traversal order LLVM documents.",
-		Rules:      []RuleUse{{Rule: "NUM-SHAPE"}, {Rule: "NUM-PREFIX"}, {Rule: "NUM-REDERIVE"}, {Rule: "NUM-AUTH"}, {Rule: "RACE-2"}, {Rule: "RACE-3"}},
+		Rules:      []RuleUse{{Rule: "NUM-SHAPE"}, {Rule: "NUM-PREFIX"}, {Rule: "NUM-REDERIVE"}, {Rule: "NUM-AUTH"}, {Rule: "NUM-ORDER"}, {Rule: "RACE-2"}, {Rule: "RACE-3"}, {Rule: "TYP-AGREE", Filter: tag("call"), Floor: 3}},
 	})
 	addProperty(&Property{
 		ID:         "C11",
